@@ -147,3 +147,118 @@ def aead_inc_groups(prefix, props, ops=INC_OPS, cfg="C64", alias=True):
                                 drop_unused=True, unwind=42, timeout=900, replay=aead_replay(cfg),
                                 expect_classes=["postcondition", "assigns"]))
     return gs
+
+SPONGE = {
+    "xof": ("ascon_xof_state_t", "SPEC_XOF", 8, 8, "src/hash/ascon-xof.c"),
+    "xofa": ("ascon_xofa_state_t", "SPEC_XOFA", 8, 8, "src/hash/ascon-xofa.c"),
+    "prf": ("ascon_prf_state_t", "SPEC_PRF", 32, 16, "src/mac/ascon-prf.c"),
+}
+
+
+def sponge_lens(rate, count, tier):
+    if tier == "thorough":
+        return list(range(0, 2 * rate))
+    t = rate - count if count else 0
+    s = {0, 1, t - 1, t, t + 1, t + rate, t + rate + 1, rate - 1, rate, 2 * rate - 1}
+    return sorted(x for x in s if 0 <= x < 2 * rate)
+
+
+def sponge_l1_groups(prefix, props, fam, ops, tier, cfg="C64", seed=0):
+    """L1 step proofs of ascon_{xof,xofa,prf}_{absorb,squeeze}: one constant (count, mode, length) per group."""
+    typ, params, rin, rout, src = SPONGE[fam]
+    gs = []
+    for op in ops:
+        rate = rin if op == "absorb" else rout
+        f = "ascon_%s_%s" % (fam, op)
+        # entry states: absorbing at count c (rate_in) or squeezing at count c (rate_out)
+        entries = []
+        for mode in (0, 1):
+            r = rin if mode == 0 else rout
+            cs = range(r) if tier == "thorough" else sorted({0, 1, r // 2, r - 1, 2 + seed % (r - 3)})
+            entries += [(c, mode) for c in cs]
+        for (c, mode) in entries:
+            same_phase = (mode == 0) == (op == "absorb")
+            lens = sponge_lens(rate, c if same_phase else 0, tier)
+            if tier != "thorough" and not same_phase:
+                lens = [x for x in lens if x in (0, 1, rate, rate + 1)]
+            for ln in lens:
+                gs.append(Group("%s.l1.%s.%s.c%d.m%d.len%d" % (prefix, f, cfg, c, mode, ln), props,
+                                "harness/h_sponge_l1.c", "h_sponge_l1", [src, BACKEND_SRC[cfg], "src/core/ascon-clean.c"], cfg=cfg,
+                                enforce=f, replace=["ascon_permute"],
+                                defs=["VERIF_FN=" + f, "VERIF_T=" + typ, "VERIF_PARAMS=" + params, "VERIF_COUNT=%d" % c,
+                                      "VERIF_MODE=%d" % mode, "VERIF_LEN=%d" % ln, "VERIF_LEN_BOUND=%d" % (2 * rate + 2),
+                                      "VERIF_ABSTRACT_P"] + (["VERIF_SPONGE_ABSORB"] if op == "absorb" else []),
+                                contracts=["contracts/c_permute_abstract.h", "contracts/c_sponge_l1.h"],
+                                drop_unused=True, unwind=max(2 * rate + 4, 42), timeout=600,
+                                expect_classes=["postcondition", "assigns"]))
+    return gs
+
+XOF_TWINS = {
+    "xof": dict(src="src/hash/ascon-xof.c", hsrc="src/hash/ascon-hash.c", iv="0x00400c00u", rc=0, hash="hash", T="ascon_xof_state_t",
+                HT="ascon_hash_state_t", ta="SP_TAG_XOF_ABSORB", ts="SP_TAG_XOF_SQUEEZE"),
+    "xofa": dict(src="src/hash/ascon-xofa.c", hsrc="src/hash/ascon-hasha.c", iv="0x00400c04u", rc=4, hash="hasha", T="ascon_xofa_state_t",
+                 HT="ascon_hasha_state_t", ta="SP_TAG_XOFA_ABSORB", ts="SP_TAG_XOFA_SQUEEZE"),
+}
+
+
+def xof_l2_groups(prefix, props, cfg="C64", which=None):
+    gs = []
+
+    def G(name, fn, op, T, srcs, abstract, extra_defs=(), replace=(), xst="(p)", unwind=42, timeout=900):
+        defs = ["VERIF_FN=" + fn, "VERIF_ENFORCE_" + op, "VERIF_T=" + T, "XIV=" + tw["iv"], "XRC=%d" % tw["rc"],
+                "XTAG_ABSORB=" + tw["ta"], "XTAG_SQUEEZE=" + tw["ts"], "VERIF_XST(p)=" + xst] + list(extra_defs)
+        contracts = ["contracts/c_xof_l2.h"]
+        repl = list(replace)
+        if abstract:
+            defs += ["VERIF_ABSTRACT_P", "VERIF_L1_SUMMARY"]
+            contracts = ["contracts/c_permute_abstract.h"] + contracts
+        else:
+            defs += ["VERIF_CONCRETE"]
+        if which and not any(w in name for w in which):
+            return
+        gs.append(Group("%s.l2.%s.%s" % (prefix, name, cfg), props, "harness/h_xof_l2.c", "h_xof_l2",
+                        srcs + [BACKEND_SRC[cfg], "src/core/ascon-clean.c"], cfg=cfg, enforce=fn, replace=repl, defs=defs,
+                        contracts=contracts, drop_unused=True, unwind=unwind, timeout=timeout,
+                        expect_classes=["postcondition", "assigns"]))
+
+    for x, tw in XOF_TWINS.items():
+        h = tw["hash"]
+        A, S = "ascon_%s_absorb" % x, "ascon_%s_squeeze" % x
+        # pre-computed initial values == p^12(IV block of the specification): concrete, no permutation call
+        G("ascon_%s_init" % x, "ascon_%s_init" % x, "init", tw["T"], [tw["src"]], False, ["VERIF_LBITS=0"])
+        G("ascon_%s_reinit" % x, "ascon_%s_reinit" % x, "reinit", tw["T"], [tw["src"]], False, ["VERIF_LBITS=0"])
+        G("ascon_%s_init" % h, "ascon_%s_init" % h, "init", tw["HT"], [tw["hsrc"], tw["src"]], False, ["VERIF_LBITS=256"], xst="(&(p)->xof)")
+        G("ascon_%s_reinit" % h, "ascon_%s_reinit" % h, "reinit", tw["HT"], [tw["hsrc"], tw["src"]], False, ["VERIF_LBITS=256"], xst="(&(p)->xof)")
+        G("ascon_%s_init_fixed.tables" % x, "ascon_%s_init_fixed" % x, "init_fixed_const", tw["T"], [tw["src"]], False)
+        G("ascon_%s_reinit_fixed.tables" % x, "ascon_%s_reinit_fixed" % x, "reinit_fixed_const", tw["T"], [tw["src"]], False)
+        # generic declared lengths: abstract permutation
+        G("ascon_%s_init_fixed.generic" % x, "ascon_%s_init_fixed" % x, "init_fixed_gen", tw["T"], [tw["src"]], True,
+          replace=["ascon_permute"])
+        G("ascon_%s_absorb_custom" % x, "ascon_%s_absorb_custom" % x, "absorb_custom", tw["T"], [tw["src"]], True,
+          replace=["ascon_permute", A])
+        for op in ("init_custom", "reinit_custom"):
+            G("ascon_%s_%s" % (x, op), "ascon_%s_%s" % (x, op), op, tw["T"], [tw["src"]], True,
+              ["VERIF_NAME_MAX=40", "VERIF_REPLACE_XOF_INIT_FIXED"],
+              replace=["ascon_permute", A, S, "ascon_%s_init_fixed" % x], unwind=44, timeout=1800)
+        G("ascon_%s" % x, "ascon_%s" % x, "oneshot", tw["T"], [tw["src"]], True, ["VERIF_LBITS=0", "VERIF_REPLACE_XOF_INIT"],
+          replace=[A, S, "ascon_%s_init" % x])
+        G("ascon_%s" % h, "ascon_%s" % h, "oneshot", tw["T"], [tw["hsrc"], tw["src"]], True, ["VERIF_LBITS=256", "VERIF_REPLACE_XOF_INIT"],
+          replace=[A, S, "ascon_%s_init" % h])
+        G("ascon_%s_copy" % x, "ascon_%s_copy" % x, "copy", tw["T"], [tw["src"]], False)
+        G("ascon_%s_copy" % h, "ascon_%s_copy" % h, "copy", tw["HT"], [tw["hsrc"], tw["src"]], False, xst="(&(p)->xof)")
+        G("ascon_%s_free" % x, "ascon_%s_free" % x, "free", tw["T"], [tw["src"]], False)
+        G("ascon_%s_free" % h, "ascon_%s_free" % h, "free", tw["HT"], [tw["hsrc"], tw["src"]], False, xst="(&(p)->xof)")
+    return gs
+
+HASH_REPLAY_SRCS = ["src/hash/ascon-xof.c", "src/hash/ascon-xofa.c", "src/hash/ascon-hash.c", "src/hash/ascon-hasha.c", "src/core/ascon-clean.c"]
+
+
+def hash_replay(cfg="C64"):
+    return {"prog": "replay/r_hash.c", "srcs": HASH_REPLAY_SRCS + PERM_SRC[cfg]}
+
+
+def with_replay(gs, rp):
+    for g in gs:
+        if g.replay is None:
+            g.replay = rp
+    return gs
